@@ -505,6 +505,9 @@ def c09(tier, seed):
             # the skip comes from a cleanup function, after the property function has returned normally: the test case does not count either
             "cleanupskip": ({"body": [draw(g("Uint8"), "x", "x"), op("cleanup", body=[iff("x", "mod2", 0, [op("skip")])])]}, None),
             "cleanupskip_always": ({"body": [draw(g("Uint8"), "x"), op("cleanup", body=[op("skip")])]}, None),
+            # the skip comes from a state machine's invariant, after an action has run: it skips the test case (not just the step)
+            "invskip": ({"body": [op("setvar", var="n", val="0"), op("repeat", actions={"a": [draw(g("Bool"), "b"), op("incvar", var="n")]},
+                                                                     inv=[iff("n", "ge", 1, [op("skip")])]), draw(g("Bool"), "after")]}, None),
         }
         if N <= 10:
             alt = {str(i): [op("skip")] for i in range(1, 8 * N, 2)}
@@ -531,6 +534,8 @@ def c09(tier, seed):
                 fl = {"checks": N, "seed": rng.randrange(1, 1 << 64), "shrinktime": "0s"}
                 if len(out) % 3 == 0:
                     fl["v"] = "true"     # the verbose protocol: every random test case announced with number and seed, closed with its outcome
+                if files == "passing" and len(out) % 2:
+                    fl["nofailfile"] = "true"   # (-rapid.nofailfile only keeps Check from writing: files found are still replayed)
                 if files == "explicit":   # -rapid.failfile names one more file: the ones found in the test's directory are still replayed
                     fs.append({"path": "elsewhere/e.fail", "text": failfile_text([0, 0, 0])})
                     fl["failfile"] = "elsewhere/e.fail"
@@ -592,6 +597,12 @@ def c07(tier, seed):
         out.append(scenario("c07-rand-%s-%d" % (tn, i), {"body": TEMPLATES[tn]()},
                             {"checks": 100, "seed": 0, "nofailfile": "true", "shrinktime": rng.choice(["0s", "30s"])},
                             runs=[{}, {"seedPrev": True, "expect": "seed_prev"}], tag={"template": tn}))
+    # (a') skips and the failure both depend on the data (not on the case's position): the failing case often follows a skipped one
+    for sd in seeds(rng, 6 if tier == "quick" else 60):
+        body = [draw(g("Uint8"), "x", "x"), iff("x", "mod2", 0, [op("skip")]), draw(g("Int16"), "t", "t"), draw(g("SliceOfN", elem=g("Byte"), minLen=0, maxLen=3), "s"),
+                iff("t", "ge", 2000, [op("fatalf", site=1)])]
+        out.append(scenario("c07-skipfail-%d" % sd, {"body": body}, {"checks": 500, "seed": sd, "nofailfile": "true", "shrinktime": "0s"},
+                            runs=[{}, {"seedPrev": True, "expect": "seed_prev"}], tag={"template": "skip then fail"}))
     # (b') a property that obtains its context in a cleanup function and relies on a live context while it runs
     for sd in seeds(rng, 2 if tier == "quick" else 20):
         out.append(scenario("c07-ctx-%d" % sd, {"body": t_ctx()}, {"checks": 100, "seed": sd, "nofailfile": "true", "shrinktime": "0s"},
